@@ -395,114 +395,125 @@ class VanillaSimulaQronExecutioner(Executor):
         Create EPR pair with another node.
         Depending on the ips and ports this will either create an EPR-pair and send one part, or just receive.
         """
-        # Get ip and port of remote host
-        for remote_node_name, remote_host in self.factory.qnodeos_net.hostDict.items():
-            node_id = get_node_id_from_net_config(self.factory.qnodeos_net, remote_host.name)
-            if node_id == remote_node_id:
-                break
-        else:
-            raise ValueError(f"Unknown node with ID {remote_node_id}")
+        try:
+            # Get ip and port of remote host
+            for remote_node_name, remote_host in self.factory.qnodeos_net.hostDict.items():
+                node_id = get_node_id_from_net_config(self.factory.qnodeos_net, remote_host.name)
+                if node_id == remote_node_id:
+                    break
+            else:
+                raise ValueError(f"Unknown node with ID {remote_node_id}")
 
-        self._logger.debug(f"Creating EPR with {remote_node_name} on socket {epr_socket_id}")
+            self._logger.debug(f"Creating EPR with {remote_node_name} on socket {epr_socket_id}")
 
-        # Check so that it is not the same node
-        if self.name == remote_node_name:
-            raise ValueError("Trying to create EPR from node to itself.")
+            # Check so that it is not the same node
+            if self.name == remote_node_name:
+                raise ValueError("Trying to create EPR from node to itself.")
 
-        # Check that other node is adjacent to us
-        if not self.factory.is_adjacent(remote_node_name):
-            raise ValueError(f"Node {self.name} is not adjacent to {remote_node_name} in the specified topology.")
+            # Check that other node is adjacent to us
+            if not self.factory.is_adjacent(remote_node_name):
+                raise ValueError(f"Node {self.name} is not adjacent to {remote_node_name} in the specified topology.")
 
-        # Create the qubits
-        # NOTE we don't actually allocate it since it will be sent to the other node (or measured)
-        # NOTE we will use negative address to not mix up with normal qubits
-        second_qubit_id = -(1 + qubit_id)
-        for q_id in [qubit_id, second_qubit_id]:
-            yield self.cmd_new(
-                physical_address=q_id,
-            )
+            # Create the qubits
+            # NOTE we don't actually allocate it since it will be sent to the other node (or measured)
+            # NOTE we will use negative address to not mix up with normal qubits
+            second_qubit_id = -(1 + qubit_id)
+            for q_id in [qubit_id, second_qubit_id]:
+                yield self.cmd_new(
+                    physical_address=q_id,
+                )
 
-        # Produce EPR-pair
-        h_gate = self._get_simulaqron_gate(instr=instructions.vanilla.GateHInstruction())
-        yield self.apply_single_qubit_gate(
-            gate=h_gate,
-            qubit_id=qubit_id,
-        )
-        cnot_gate = self._get_simulaqron_gate(instr=instructions.vanilla.CnotInstruction())
-        yield self.apply_two_qubit_gate(
-            gate=cnot_gate,
-            qubit_id1=qubit_id,
-            qubit_id2=second_qubit_id,
-        )
-
-        # Get entanglement id
-        # TODO lock here?
-        ent_id = self.new_ent_id(
-            epr_socket_id=epr_socket_id,
-            remote_node_id=remote_node_id,
-            remote_epr_socket_id=remote_epr_socket_id,
-        )
-        if create_request.type == RequestType.K:
-            # Prepare ent_info header with entanglement information
-            ent_info = LinkLayerOKTypeK(
-                type=ReturnType.OK_K,
-                create_id=create_id,
-                logical_qubit_id=qubit_id,
-                directionality_flag=0,
-                sequence_number=ent_id,
-                # NOTE We use EPR socket ID
-                purpose_id=epr_socket_id,
-                remote_node_id=remote_node_id,
-                goodness=1,
-                goodness_time=int(time.time()),
-                bell_state=BellState.PHI_PLUS,
-            )
-
-            # Send second qubit (and epr info)
-            yield self.send_epr_half(
-                qubit_id=second_qubit_id,
-                epr_socket_id=epr_socket_id,
-                remote_node_name=remote_node_name,
-                remote_epr_socket_id=remote_epr_socket_id,
-                ent_info=ent_info,
-            )
-        elif create_request.type == RequestType.M:
-            local_outcome, local_basis = yield self._measure_epr_qubit(
+            # Produce EPR-pair
+            h_gate = self._get_simulaqron_gate(instr=instructions.vanilla.GateHInstruction())
+            yield self.apply_single_qubit_gate(
+                gate=h_gate,
                 qubit_id=qubit_id,
-                request=create_request,
-                remote=False,
             )
-            remote_outcome, remote_basis = yield self._measure_epr_qubit(
-                qubit_id=second_qubit_id,
-                request=create_request,
-                remote=True,
-            )
-            # Prepare ent_info header with entanglement information
-            ent_info = LinkLayerOKTypeM(
-                type=ReturnType.OK_M,
-                create_id=create_id,
-                measurement_outcome=local_outcome,
-                measurement_basis=local_basis,
-                directionality_flag=0,
-                sequence_number=ent_id,
-                # NOTE We use EPR socket ID
-                purpose_id=epr_socket_id,
-                remote_node_id=remote_node_id,
-                goodness=1,
-                bell_state=BellState.PHI_PLUS,
+            cnot_gate = self._get_simulaqron_gate(instr=instructions.vanilla.CnotInstruction())
+            yield self.apply_two_qubit_gate(
+                gate=cnot_gate,
+                qubit_id1=qubit_id,
+                qubit_id2=second_qubit_id,
             )
 
-            # Send the outcome (and epr info)
-            yield self.send_epr_outcome_half(
+            # Get entanglement id
+            # TODO lock here?
+            ent_id = self.new_ent_id(
                 epr_socket_id=epr_socket_id,
-                remote_node_name=remote_node_name,
+                remote_node_id=remote_node_id,
                 remote_epr_socket_id=remote_epr_socket_id,
-                ent_info=ent_info,
-                remote_outcome=remote_outcome,
-                remote_basis=remote_basis,
             )
-        else:
-            raise NotImplementedError(f"EPR requests of type {create_request.type} are not yet supported in simulaqron")
+            if create_request.type == RequestType.K:
+                # Prepare ent_info header with entanglement information
+                ent_info = LinkLayerOKTypeK(
+                    type=ReturnType.OK_K,
+                    create_id=create_id,
+                    logical_qubit_id=qubit_id,
+                    directionality_flag=0,
+                    sequence_number=ent_id,
+                    # NOTE We use EPR socket ID
+                    purpose_id=epr_socket_id,
+                    remote_node_id=remote_node_id,
+                    goodness=1,
+                    goodness_time=int(time.time()),
+                    bell_state=BellState.PHI_PLUS,
+                )
+
+                # Send second qubit (and epr info)
+                yield self.send_epr_half(
+                    qubit_id=second_qubit_id,
+                    epr_socket_id=epr_socket_id,
+                    remote_node_name=remote_node_name,
+                    remote_epr_socket_id=remote_epr_socket_id,
+                    ent_info=ent_info,
+                )
+            elif create_request.type == RequestType.M:
+                local_outcome, local_basis = yield self._measure_epr_qubit(
+                    qubit_id=qubit_id,
+                    request=create_request,
+                    remote=False,
+                )
+                remote_outcome, remote_basis = yield self._measure_epr_qubit(
+                    qubit_id=second_qubit_id,
+                    request=create_request,
+                    remote=True,
+                )
+                # Prepare ent_info header with entanglement information
+                ent_info = LinkLayerOKTypeM(
+                    type=ReturnType.OK_M,
+                    create_id=create_id,
+                    measurement_outcome=local_outcome,
+                    measurement_basis=local_basis,
+                    directionality_flag=0,
+                    sequence_number=ent_id,
+                    # NOTE We use EPR socket ID
+                    purpose_id=epr_socket_id,
+                    remote_node_id=remote_node_id,
+                    goodness=1,
+                    bell_state=BellState.PHI_PLUS,
+                )
+
+                # Send the outcome (and epr info)
+                yield self.send_epr_outcome_half(
+                    epr_socket_id=epr_socket_id,
+                    remote_node_name=remote_node_name,
+                    remote_epr_socket_id=remote_epr_socket_id,
+                    ent_info=ent_info,
+                    remote_outcome=remote_outcome,
+                    remote_basis=remote_basis,
+                )
+            else:
+                raise NotImplementedError(
+                    f"EPR requests of type {create_request.type} are not yet supported in simulaqron"
+                )
+        except Exception:
+            # The pair could not be completed: remove the temporary qubits this node still holds (a half that was
+            # already handed over is the peer's) and release the physical ID, otherwise they stay on the node for ever
+            for q_id in [qubit_id, -(1 + qubit_id)]:
+                if q_id in self.factory.qubitList:
+                    yield from self._clear_phys_qubit_in_memory(q_id)
+            self._used_physical_qubit_addresses.discard(qubit_id)
+            raise
 
         self._handle_epr_response(response=ent_info)
         self._logger.debug("finished cmd_epr")
